@@ -14,6 +14,8 @@ for mp in sorted(glob.glob("/verif/seeded/*/meta.json")):
     conf = m.get("confirmed", {})
     ok = ("with_change=1" in conf.get("demo", "") and "without_change=0" in conf.get("demo", "")) and "missing=0" in conf.get("pinned_suite_with_change", "")
     caught = ", ".join(m.get("caught_by", [])) or "**missed**"
+    if m.get("neutralised") and not m.get("caught_by"):
+        caught = "n/a (neutralised on HEAD: demo passes with the change)"
     rows.append("| %s | %s | %s | %s |" % (m["name"], re.sub(r"\s+", " ", first)[:150].replace("|", "/"), "yes" if ok else "NOT CONFIRMED", caught))
 print("| seed | what it is (author's first line) | confirmed by me (demo 0/1, pinned suite passes) | caught by |")
 print("|---|---|---|---|")
